@@ -73,6 +73,7 @@ type act struct {
 	K    string `json:"k"`
 	R    string `json:"r"`
 	Hold bool   `json:"hold"`
+	F    string `json:"f"`  // rok: what the handler does with the frame: "" / x, send, close
 	Wt   int    `json:"wt"` // init line only
 	Rt   int    `json:"rt"`
 	Race bool   `json:"-"` // executed concurrently with the complementary start / close that follows
@@ -84,6 +85,67 @@ func goid() int {
 	f := strings.Fields(string(buf[:n]))
 	id, _ := strconv.Atoi(f[1])
 	return id
+}
+
+// ---------------------------------------------------------------------------------------------
+// recording
+
+// emitMu: handlers of the code under test record their own re-entrant calls, so events are written
+// from several goroutines
+var emitMu sync.Mutex
+
+func emit(w *tr.W, e tr.E) {
+	emitMu.Lock()
+	defer emitMu.Unlock()
+	w.Emit(e)
+}
+
+// stuck: something of the code under test did not come back (a call that never returns, a goroutine
+// that spins instead of parking, a value it computed that names nothing).  That is an observation
+// about neptune, not a harness problem: it is recorded as an event of its own kind, which no step of
+// the specification explains, and the run ends there (what follows would only wait as long again).
+func stuck(w *tr.W, kind, msg string) {
+	fmt.Printf("c16: %s: %s\n", kind, msg)
+	emit(w, tr.E{"ev": kind, "msg": msg})
+	os.Exit(0)
+}
+
+// guard runs one call into the code under test with a watchdog.
+func guard(w *tr.W, what string, f func()) {
+	done := make(chan struct{})
+	go func() {
+		defer close(done)
+		f()
+	}()
+	t := time.NewTimer(freeBudget)
+	defer t.Stop()
+	select {
+	case <-done:
+	case <-t.C:
+		stuck(w, "stuck", what+" did not return within "+freeBudget.String())
+	}
+}
+
+// settle waits for global quiescence.  If it does not come and a goroutine inside package stcp is
+// the one that keeps running, that is recorded (stuck); otherwise the run is inconclusive (exit 2).
+func settle(w *tr.W, x *qx.Exec) {
+	err := x.Settle()
+	if err == nil {
+		return
+	}
+	for _, blk := range strings.Split(allStacks(), "\n\n") {
+		if !strings.Contains(blk, "neptune/stcp.") {
+			continue
+		}
+		head := blk
+		if i := strings.IndexByte(blk, '\n'); i >= 0 {
+			head = blk[:i]
+		}
+		if strings.Contains(head, "[running") || strings.Contains(head, "[runnable") || strings.Contains(head, "[sleep") {
+			stuck(w, "stuck", "no quiescence: "+head)
+		}
+	}
+	tr.Fatal("%v", err)
 }
 
 // ---------------------------------------------------------------------------------------------
@@ -99,6 +161,12 @@ type timeoutErr struct{}
 func (timeoutErr) Error() string   { return "scripted i/o timeout" }
 func (timeoutErr) Timeout() bool   { return true }
 func (timeoutErr) Temporary() bool { return true }
+
+// tempErr: temporary but not a timeout (the package's ITemporary predicate)
+type tempErr struct{}
+
+func (tempErr) Error() string   { return "scripted: resource temporarily unavailable" }
+func (tempErr) Temporary() bool { return true }
 
 var (
 	errClosed  = errors.New("scripted: use of closed connection")
@@ -169,6 +237,8 @@ func (c *sconn) Read(p []byte) (int, error) {
 			return 0, io.EOF
 		case "timeout":
 			return 0, timeoutErr{}
+		case "temp":
+			return 0, tempErr{}
 		}
 		return 0, errIO
 	case <-c.closedCh:
@@ -203,6 +273,8 @@ func (c *sconn) Write(p []byte) (int, error) {
 			n = len(p)
 		case "timeout":
 			n, err = m.n, timeoutErr{}
+		case "temp":
+			n, err = m.n, tempErr{}
 		default:
 			n, err = m.n, errIO
 		}
@@ -287,17 +359,25 @@ type ssn struct {
 	usedR   bool // ports used since the last sync
 	usedW   bool
 	drained bool
+	// re-entrant use: the handler's own calls into its session
+	reentDone chan struct{} // the Read handler has made and recorded its call
+	exitSend  bool          // OnExit calls Send
+	exitClose bool          // OnExit calls Close
+	// every slice handed to Send, as handed over, and a private copy: Send has no business writing to it
+	sent, sentCopy [][]byte
 }
 
 type world struct {
-	mgr   *stcp.SessionMgr
-	ss    []*ssn
-	x     *qx.Exec
-	w     *tr.W
-	own   bool // per-session handler (UpdateHandler) instead of the manager's
-	useDo bool // SessionMgr.Do instead of NewSession + Start
-	empty bool
-	dirty bool // something was fired since the last sync
+	mgr       *stcp.SessionMgr
+	ss        []*ssn
+	x         *qx.Exec
+	w         *tr.W
+	own       bool // per-session handler (UpdateHandler) instead of the manager's
+	useDo     bool // SessionMgr.Do instead of NewSession + Start
+	empty     bool
+	dirty     int32 // something was fired since the last sync (atomic: handlers record too)
+	waitReent *ssn  // the Read handler of this session is about to make a call of its own
+	reent     bool  // OnExit calls back into the session (Send, Close); every action is followed by a sync
 }
 
 // attributed: at least one goroutine was attributed to a session through the runtime's
@@ -310,7 +390,8 @@ func (h *shandler) find(s *stcp.Session) *ssn {
 	a := s.RemoteAddr()
 	i, err := strconv.Atoi(strings.TrimPrefix(a, "s"))
 	if err != nil || i < 1 || i > len(h.wd.ss) {
-		tr.Fatal("handler called for unknown session %q", a)
+		// RemoteAddr is computed by the code under test from the connection it was given
+		stuck(h.wd.w, "alien", fmt.Sprintf("handler called for a session whose RemoteAddr is %q", a))
 	}
 	return h.wd.ss[i-1]
 }
@@ -330,11 +411,45 @@ func (h *shandler) Read(s *stcp.Session) error {
 		panic("scripted handler panic")
 	case 'E':
 		return errHandler
+	case 'S': // the handler answers the frame: Send from inside Read, on the receive loop's goroutine
+		h.reSend(x, s, []byte{0xA5, byte(x.id)})
+		x.reentDone <- struct{}{}
+	case 'C': // the handler ends the conversation: Close from inside Read
+		h.reClose(x, s)
+		x.reentDone <- struct{}{}
 	}
 	return nil
 }
 
-func (h *shandler) OnExit(s *stcp.Session) { atomic.AddInt32(&h.find(s).exits, 1) }
+func (h *shandler) reClose(x *ssn, s *stcp.Session) {
+	callMu.Lock()
+	defer callMu.Unlock()
+	s.Close()
+	h.wd.fire(tr.E{"op": "close", "s": x.id})
+}
+
+func (h *shandler) reSend(x *ssn, s *stcp.Session, bs []byte) {
+	callMu.Lock()
+	defer callMu.Unlock()
+	r := "ok"
+	if err := s.Send(bs); err != nil {
+		r = "err"
+	}
+	h.wd.fire(tr.E{"op": "send", "s": x.id, "b": tr.Ints(bs), "r": r})
+}
+
+// OnExit may use the session it is told about (a last message, Close for good measure): both calls
+// come from inside the exit body, on whichever loop runs it.
+func (h *shandler) OnExit(s *stcp.Session) {
+	x := h.find(s)
+	if x.exitSend {
+		h.reSend(x, s, []byte{0x5A, byte(x.id)})
+	}
+	if x.exitClose {
+		h.reClose(x, s)
+	}
+	atomic.AddInt32(&x.exits, 1)
+}
 
 // the manager's handler in worlds whose sessions carry their own (UpdateHandler): it must never be
 // used; if it is, the recorded trace shows something the specification cannot explain
@@ -359,7 +474,13 @@ func newWorld(w *tr.W, rng *rand.Rand, o opts, n int, own, useDo, empty bool, sr
 	wd.mgr.SetLogger(quiet)
 	for i := 1; i <= n; i++ {
 		wd.ss = append(wd.ss, &ssn{id: i, conn: newConn(fmt.Sprintf("s%d", i)), st: "new",
-			reg: make(chan *stcp.Session, 1)})
+			reg: make(chan *stcp.Session, 1), reentDone: make(chan struct{}, 4)})
+	}
+	wd.reent = rng.Intn(4) == 0
+	for _, x := range wd.ss {
+		if wd.reent {
+			x.exitSend, x.exitClose = rng.Intn(2) == 0, rng.Intn(2) == 0
+		}
 	}
 	cerr := make([]bool, n)
 	for i, x := range wd.ss {
@@ -367,13 +488,13 @@ func newWorld(w *tr.W, rng *rand.Rand, o opts, n int, own, useDo, empty bool, sr
 		x.conn.closeErr = rng.Intn(3) == 0
 		cerr[i] = x.conn.closeErr
 	}
-	w.Emit(tr.E{"ev": "reset", "maxc": 100000, "free": false, "src": src, "own": wd.own, "do": useDo, "closeerr": cerr, "wt": o.Wt, "rt": o.Rt})
+	emit(w, tr.E{"ev": "reset", "maxc": 100000, "free": false, "src": src, "own": wd.own, "do": useDo, "closeerr": cerr, "wt": o.Wt, "rt": o.Rt, "reent": wd.reent})
 	return wd
 }
 
 func (wd *world) fire(a tr.E) {
-	wd.dirty = true
-	wd.w.Emit(tr.E{"ev": "fire", "a": a})
+	atomic.StoreInt32(&wd.dirty, 1)
+	emit(wd.w, tr.E{"ev": "fire", "a": a})
 }
 
 // ownedBy counts goroutines created by goroutine `starter` that are inside package stcp.
@@ -405,9 +526,7 @@ func allStacks() string {
 }
 
 func (wd *world) sync() {
-	if err := wd.x.Settle(); err != nil {
-		tr.Fatal("%v", err)
-	}
+	settle(wd.w, wd.x)
 	stacks := allStacks()
 	obs := make([]tr.E, len(wd.ss))
 	for _, x := range wd.ss {
@@ -440,10 +559,20 @@ func (wd *world) sync() {
 			}
 		}
 		obs[i] = tr.E{"st": x.st, "exits": int(atomic.LoadInt32(&x.exits)), "closed": closed,
-			"w": tr.Ints(x.pendW), "r": x.pendR, "peer": peer, "g": g}
+			"w": tr.Ints(x.pendW), "r": x.pendR, "peer": peer, "g": g, "inmut": x.inmut()}
 	}
-	wd.w.Emit(tr.E{"ev": "sync", "obs": tr.E{"count": int(wd.mgr.ConnCount()), "ss": obs}})
-	wd.dirty = false
+	emit(wd.w, tr.E{"ev": "sync", "obs": tr.E{"count": int(wd.mgr.ConnCount()), "ss": obs}})
+	atomic.StoreInt32(&wd.dirty, 0)
+}
+
+// inmut: no slice handed to Send has been written to
+func (x *ssn) inmut() bool {
+	for i := range x.sent {
+		if !bytes.Equal(x.sent[i], x.sentCopy[i]) {
+			return false
+		}
+	}
+	return true
 }
 
 func (wd *world) session(x *ssn) *stcp.Session {
@@ -455,7 +584,7 @@ func (wd *world) session(x *ssn) *stcp.Session {
 	select {
 	case x.sess = <-x.reg:
 	case <-t.C:
-		tr.Fatal("session %d: the handler was never called", x.id)
+		stuck(wd.w, "stuck", fmt.Sprintf("session %d was started through SessionMgr.Do but its handler was never called", x.id))
 	}
 	return x.sess
 }
@@ -512,13 +641,46 @@ func (wd *world) start(x *ssn, rng *rand.Rand, withClose bool) {
 		done <- id
 	}()
 	close(gate)
-	x.starter = <-done
-	wg.Wait()
+	t := time.NewTimer(freeBudget)
+	defer t.Stop()
+	select {
+	case x.starter = <-done:
+	case <-t.C:
+		wd.fire(tr.E{"op": "start", "s": x.id, "r": "admitted"})
+		stuck(wd.w, "stuck", fmt.Sprintf("Start / Do of session %d did not return within %v", x.id, freeBudget))
+	}
+	guard(wd.w, "Close racing Start", wg.Wait)
 	x.st = "run"
 }
 
 // step performs one plan action if it is applicable; reports whether something was done.
+// callMu makes "call into the session + record it" one unit, for the driver and for the handlers'
+// own re-entrant calls alike, so that the order of the log is the order of the calls.  It is never
+// held across a sync (a handler waiting for it would look parked).
+var callMu sync.Mutex
+
 func (wd *world) step(a act, rng *rand.Rand) bool {
+	if a.Op == "wdl" {
+		return wd.step1(a, rng)
+	}
+	wd.waitReent = nil
+	callMu.Lock()
+	ok := wd.step1(a, rng)
+	callMu.Unlock()
+	if x := wd.waitReent; x != nil {
+		// the handler's own call is recorded by the handler; nothing else is done before that
+		t := time.NewTimer(freeBudget)
+		select {
+		case <-x.reentDone:
+		case <-t.C:
+			stuck(wd.w, "stuck", fmt.Sprintf("session %d: the call the handler made from inside Read did not return", x.id))
+		}
+		t.Stop()
+	}
+	return ok
+}
+
+func (wd *world) step1(a act, rng *rand.Rand) bool {
 	if a.S < 1 || a.S > len(wd.ss) {
 		return false
 	}
@@ -542,10 +704,13 @@ func (wd *world) step(a act, rng *rand.Rand) bool {
 		for i, v := range a.B {
 			bs[i] = byte(v)
 		}
-		r := "ok"
-		if err := wd.session(x).Send(bs); err != nil {
-			r = "err"
-		}
+		x.sent, x.sentCopy = append(x.sent, bs), append(x.sentCopy, append([]byte{}, bs...))
+		r, sess := "ok", wd.session(x)
+		guard(wd.w, "Send", func() {
+			if err := sess.Send(bs); err != nil {
+				r = "err"
+			}
+		})
 		wd.fire(tr.E{"op": "send", "s": a.S, "b": tr.Ints(bs), "r": r})
 	case "close":
 		if !wd.reachable(x) {
@@ -557,7 +722,7 @@ func (wd *world) step(a act, rng *rand.Rand) bool {
 			wd.fire(tr.E{"op": "start", "s": a.S, "r": "admitted"})
 			break
 		}
-		wd.session(x).Close()
+		guard(wd.w, "Close", wd.session(x).Close)
 		wd.fire(tr.E{"op": "close", "s": a.S})
 	case "wok", "wfault":
 		if x.pendW == nil || x.usedW {
@@ -574,10 +739,7 @@ func (wd *world) step(a act, rng *rand.Rand) bool {
 			if n >= len(x.pendW) {
 				n = len(x.pendW) - 1
 			}
-			kind := "err"
-			if rng.Intn(2) == 0 {
-				kind = "timeout"
-			}
+			kind := []string{"err", "timeout", "temp"}[rng.Intn(3)]
 			if !c.command(c.wcmd, cmd{kind: kind, n: n}) {
 				return false
 			}
@@ -591,6 +753,13 @@ func (wd *world) step(a act, rng *rand.Rand) bool {
 		m := cmd{kind: "data", b: 'x'}
 		rec := tr.E{"op": a.Op, "s": a.S}
 		switch a.Op {
+		case "rok":
+			switch a.F {
+			case "send":
+				m.b = 'S'
+			case "close":
+				m.b = 'C'
+			}
 		case "panic":
 			m.b = 'P'
 		case "rfault":
@@ -604,7 +773,7 @@ func (wd *world) step(a act, rng *rand.Rand) bool {
 				c.mu.Lock()
 				c.failRDL = true
 				c.mu.Unlock()
-			case "eof", "err", "timeout":
+			case "eof", "err", "timeout", "temp":
 				m.kind = a.K
 			default:
 				return false
@@ -617,10 +786,13 @@ func (wd *world) step(a act, rng *rand.Rand) bool {
 			return false
 		}
 		wd.fire(rec)
+		if m.kind == "data" && (m.b == 'S' || m.b == 'C') {
+			wd.waitReent = x
+		}
 	case "wdl":
 		// arm a failure of the next SetWriteDeadline; nothing happens now, nothing is logged now.
 		// Armed only in a quiescent state, so that the failure is caused by a later action.
-		if wd.dirty {
+		if atomic.LoadInt32(&wd.dirty) != 0 {
 			wd.sync()
 		}
 		c.mu.Lock()
@@ -679,13 +851,13 @@ func runPlan(w *tr.W, rng *rand.Rand, o opts, src string, n int, own, useDo, emp
 		a := plan[i]
 		// a held start directly followed by close of the same session (or the other way round) is a
 		// real race: both calls are made at the same moment from two goroutines
-		if i+1 < len(plan) && a.Hold && !useDo && plan[i+1].S == a.S &&
+		if i+1 < len(plan) && a.Hold && !useDo && !wd.reent && plan[i+1].S == a.S &&
 			((a.Op == "start" && plan[i+1].Op == "close") || (a.Op == "close" && plan[i+1].Op == "start")) &&
 			a.S >= 1 && a.S <= len(wd.ss) && wd.ss[a.S-1].st == "new" {
 			a.Race, a.Hold = true, plan[i+1].Hold
 			i++
 		}
-		if wd.step(a, rng) && (!a.Hold || wd.armed()) {
+		if wd.step(a, rng) && (!a.Hold || wd.armed() || wd.reent) {
 			wd.sync()
 		}
 	}
@@ -745,13 +917,13 @@ func randPlan(rng *rand.Rand, n, steps int, empty bool) []act {
 		case x < 62:
 			a = act{Op: "wok"}
 		case x < 72:
-			a = act{Op: "rok"}
+			a = act{Op: "rok", F: []string{"x", "x", "send", "close"}[rng.Intn(4)]}
 		case x < 80:
 			a = act{Op: "close"}
 		case x < 86:
 			a = act{Op: "wfault", N: rng.Intn(4)}
 		case x < 95:
-			a = act{Op: "rfault", K: []string{"eof", "err", "timeout", "herr", "dl"}[rng.Intn(5)]}
+			a = act{Op: "rfault", K: []string{"eof", "err", "timeout", "herr", "dl", "temp"}[rng.Intn(6)]}
 		case x < 97:
 			a = act{Op: "wdl"}
 		default:
@@ -1009,7 +1181,7 @@ func newFree(w *tr.W, maxc int, o opts, src string) *fworld {
 			tr.Fatal("cannot start a loopback server")
 		}
 	}
-	w.Emit(tr.E{"ev": "reset", "maxc": maxc, "free": true, "src": src, "own": false, "do": true, "wt": o.Wt, "rt": o.Rt})
+	emit(w, tr.E{"ev": "reset", "maxc": maxc, "free": true, "src": src, "own": false, "do": true, "wt": o.Wt, "rt": o.Rt})
 	return fw
 }
 
@@ -1031,7 +1203,7 @@ func listening(a string) bool {
 	return false
 }
 
-func (fw *fworld) fire(a tr.E) { fw.w.Emit(tr.E{"ev": "fire", "a": a}) }
+func (fw *fworld) fire(a tr.E) { emit(fw.w, tr.E{"ev": "fire", "a": a}) }
 
 // dial connects k clients at once and waits, for each, for the positive sign of its fate: the
 // handler was called for it (admitted) or its stream ended (refused).
@@ -1052,7 +1224,8 @@ func (fw *fworld) dial(k int) {
 			<-start // the whole burst connects back to back: surplus connections queue up in the backlog
 			c, err := net.Dial("tcp", fw.addr)
 			if err != nil {
-				tr.Fatal("dial %s: %v", fw.addr, err)
+				// the listener was seen listening and nobody closed it: the server no longer accepts
+				stuck(fw.w, "noaccept", fmt.Sprintf("dial %s: %v", fw.addr, err))
 			}
 			cl := &client{c: c, cfg: fw.ccfg, got: []int{}, done: make(chan struct{})}
 			r, _ := fw.h.chans(c.LocalAddr().String())
@@ -1082,9 +1255,7 @@ func (fw *fworld) dial(k int) {
 		}
 	}
 	if nhung > 0 {
-		if err := fw.x.Settle(); err != nil {
-			tr.Fatal("dial: neither admitted nor refused within %v and the process is not quiescent: %v", freeBudget, err)
-		}
+		settle(fw.w, fw.x)
 		for i := range out {
 			if !out[i].hung {
 				continue
@@ -1145,9 +1316,7 @@ func stcpGoroutines() int {
 }
 
 func (fw *fworld) sync() {
-	if err := fw.x.Settle(); err != nil {
-		tr.Fatal("%v", err)
-	}
+	settle(fw.w, fw.x)
 	obs := make([]tr.E, len(fw.ss))
 	for i, x := range fw.ss {
 		x.cl.mu.Lock()
@@ -1160,7 +1329,7 @@ func (fw *fworld) sync() {
 		obs[i] = tr.E{"st": x.st, "exits": ex, "got": got, "eof": end == "eof", "gone": end == "eof" || end == "reset",
 			"pure": pure, "tail": tail}
 	}
-	fw.w.Emit(tr.E{"ev": "sync", "obs": tr.E{"count": int(fw.mgr.ConnCount()), "maxseen": int(atomic.LoadInt32(&fw.h.maxseen)),
+	emit(fw.w, tr.E{"ev": "sync", "obs": tr.E{"count": int(fw.mgr.ConnCount()), "maxseen": int(atomic.LoadInt32(&fw.h.maxseen)),
 		"g": stcpGoroutines(), "ss": obs}})
 }
 
@@ -1179,7 +1348,7 @@ func (fw *fworld) end(x *fsess, how string) {
 	switch how {
 	case "close":
 		fw.fire(tr.E{"op": "close", "s": x.id})
-		x.sess.Close()
+		guard(fw.w, "Close", x.sess.Close)
 		fw.awaitEnd(x, true)
 	case "peer":
 		fw.fire(tr.E{"op": "rfault", "s": x.id, "k": "eof"})
@@ -1211,9 +1380,11 @@ func (fw *fworld) send(x *fsess, rng *rand.Rand) {
 		bs[i] = byte(rng.Intn(256))
 	}
 	r := "ok"
-	if err := x.sess.Send(bs); err != nil {
-		r = "err"
-	}
+	guard(fw.w, "Send", func() {
+		if err := x.sess.Send(bs); err != nil {
+			r = "err"
+		}
+	})
 	fw.fire(tr.E{"op": "send", "s": x.id, "b": tr.Ints(bs), "r": r})
 }
 
@@ -1225,7 +1396,7 @@ func (fw *fworld) finish(rng *rand.Rand) {
 	}
 	fw.sync()
 	if err := fw.srv.Close(); err != nil {
-		tr.Fatal("server close: %v", err)
+		fmt.Printf("c16: server close: %v\n", err) // not part of the property
 	}
 	t := time.NewTimer(budget)
 	defer t.Stop()
@@ -1268,9 +1439,11 @@ func runBulk(w *tr.W, rng *rand.Rand, o opts) bool {
 			ids = append(ids, k+i)
 		}
 		r := "ok"
-		if err := x.sess.Send(bs); err != nil {
-			r = "err"
-		}
+		guard(fw.w, "Send", func() {
+			if err := x.sess.Send(bs); err != nil {
+				r = "err"
+			}
+		})
 		fw.fire(tr.E{"op": "send", "s": x.id, "b": ids, "r": r})
 		k += n
 	}
@@ -1378,7 +1551,8 @@ func main() {
 	quiet.SetLevel(zapcore.FatalLevel + 1)
 
 	w := tr.Create(*out)
-	var optList []opts // option combinations drawn by the plans, in order of first appearance
+	fw := tr.Create(*free) // both files exist even if the run ends early on a stuck observation
+	var optList []opts     // option combinations drawn by the plans, in order of first appearance
 	seenOpt := map[opts]bool{}
 	if *plans != "" {
 		files, _ := filepath.Glob(filepath.Join(*plans, "*.ndjson"))
@@ -1410,7 +1584,6 @@ func main() {
 	if w.N() > 0 && !attributed {
 		tr.Fatal("no goroutine could be attributed to any session (stack dump format changed?)")
 	}
-	fw := tr.Create(*free)
 	ok := true
 	for i := 0; i < *nfree && ok; i++ {
 		ok = runFree(fw, rng, i) // one unexplained world is enough; the next ones would wait as long
